@@ -66,8 +66,32 @@ register('C09', 'proof',
          assumptions=['RE-ENTRANT CALL-OUT discipline of contracts/assumed_repo.py FsmOnProcessStateEvent (see C10)',
                       'stop commands are built with their target (ProcessStopCommand.__init__)'])
 register('C07', 'proof',
-         'Detection predicate is_inactive proved equal to the statement for all states and counters.',
-         assumptions=['the local TICK reaches on_tick (Supervisor event loop)'])
+         'Per-call contracts transcribed from the statement and proved for all inputs on the real source: the stamp of a '
+         'received tick (SupvisorsTimes.update: local counter at reception, 0 on a decreasing remote counter), the '
+         'detection predicate is_inactive, the accuracy and completeness lemmas over these two contracts, '
+         'Context.on_timer_event (FAILED on exactly the inactive instances, loop invariant), on_instance_failure, '
+         'Context.invalidate (local => STOPPED, fence or auto_fence with a working Master => ISOLATED, else STOPPED), the '
+         'state setter (raises unless the change is an edge of the documented graph), ProcessStatus.invalidate_identifier '
+         '(what ran on the lost instance becomes FATAL and is no longer listed there, other entries untouched; C11). '
+         'Structural scans: single writer of _state, _Transitions = documented graph, whitelist of the functions assigning '
+         'each target state, ISOLATED only for a non-local instance, call chain on_tick -> on_timer_event -> fsm.next -> '
+         'invalidate_failed in every FSM state.',
+         not_decided=['message-delay / phase arguments beyond "a tick was received within the window" (the statement is '
+                      'phrased in received ticks)',
+                      'Context.invalidate_failed as a whole (clause 4 over all processes of the lost instances): its contract '
+                      '(contracts/pending_c07_invalidate_failed.txt) executes entirely and its instance-level clauses '
+                      'discharge, but the call precondition of invalidate_identifier (object invariant I11 for every '
+                      'process) is undecided within the budget, so it is NOT part of this check; the expected defect '
+                      'A11 (STOPPING-only copy on a lost instance stays listed) is reproduced natively only '
+                      '(findings/C07_invalidate_failed_stopping_demo.py)',
+                      'reachability through the proxy-thread race of the STOPPED status met by on_instance_failure '
+                      '(reproduced at function level after a real history, the interleaving itself is not modelled)'],
+         assumptions=['the local TICK reaches on_tick (Supervisor event loop) and XML-RPC failure notifications are '
+                      'delivered by the proxy thread',
+                      'structural validity of the per-instance maps (same domain, keyed by identifier, distinct objects): '
+                      'precondition valid_structure / distinct_entries of contracts/c07.py',
+                      'ints are mathematical; handlers are atomic (single Supervisor thread)'],
+         extra='pyvc.structural_c07')
 register('C11', 'proof',
          'Data-structure proof on the real source of ProcessStatus: the object invariant I11 (listed exactly where the last '
          'report is running-like or a lingering STOPPING, conflict flag iff two listed, displayed state = the synthesis of '
@@ -190,3 +214,40 @@ register('C20', 'proof',
                       '__init__ and the first push, stated as precondition and proved preserved)',
                       'ASSUMED frame of HostStatisticsInstance._push_timed_stats (unverified): writes only the dictionary given, '
                       'the integrated values and history lists other than times / mem / cpu'])
+register('C01', 'other',
+         'Necessary conditions only (per instance, per call): the guards of the election are proved on the real source - '
+         'get_master_identifiers returns exactly the Masters declared by the instances seen RUNNING, check_master is true '
+         'iff these instances declare one and the same Master and none is without Master, update_instance_state resets '
+         'the Master when it leaves RUNNING, forgets the declaration of a STOPPED / ISOLATED peer (fresh StateModes) and '
+         'leaves the rest of the local view untouched, get_stable_running_identifiers is the RUNNING set of a peer iff all '
+         'the states it publishes are stable. Agreement between instances is NOT proved (property of N interleaved FSMs).',
+         not_decided=['agreement / convergence over schedules of N instances (no per-call contract expresses it)',
+                      'select_master: the contract transcribed from the rule (contracts/pending_c01_select_master.txt) '
+                      'is undecided within the solver budget and is not part of this check; its expected safe:KeyError '
+                      '(Appendix A24) is therefore not reported by this check',
+                      'evaluate_stability / ElectionState.next guards, Master-only automatic actions (C01.5) - FSM agent'],
+         assumptions=['rely condition on peers: a publication is an atomic snapshot of a state satisfying the same '
+                      'per-instance contracts; FIFO per sender',
+                      'structural validity of the per-instance maps (valid_structure / distinct_entries, contracts/c07.py)',
+                      'call sites of check_master come after _OnState._check_consistence (local instance seen RUNNING)'])
+register('C13', 'proof',
+         'Non-interference clauses proved per handler on the real source: Context.is_valid never returns an ISOLATED status, '
+         'returns None for an unknown or ambiguous origin and only the status of the claimed origin; on_authorization '
+         'ignores stale / duplicated results (is_checking: CHECKING and timestamp later than the entry in CHECKING), marks '
+         'ISOLATED a peer answering NOT_AUTHORIZED / INCONSISTENT / an unknown code (STOPPED for the local instance), '
+         'admits (CHECKED) only on AUTHORIZED, goes back to STOPPED on UNKNOWN, and leaves an ISOLATED status ISOLATED; '
+         'on_identification_event changes no instance state and has no effect outside the CHECKING window; '
+         'Context.invalidate(fence=True) => ISOLATED unless local. Permanence: C07 (empty ISOLATED row, single writer, '
+         'state setter contract).',
+         not_decided=['reciprocity as a two-party fact (needs the real answer of the remote instance)',
+                      'claimed origin vs real sender (transport)',
+                      'listener.read_publication / read_notification (json decoding), SupervisorProxyServer.get_proxy / '
+                      'push_* (threads, locks) and SupervisorProxy._is_authorized (XML-RPC) are not under contract in this '
+                      'round: the frame "invalid origin => nothing modified, nothing emitted" is proved at the level of '
+                      'Context.is_valid only',
+                      'process state / removal / disability events only from CHECKED or RUNNING peers: C12'],
+         assumptions=['SupvisorsInstanceId.is_valid (address match) is an external predicate',
+                      'SupvisorsMapper.filter resolves identifier lists as documented (assumed contract); mapper closure '
+                      '(nick identifiers and stereotypes name known instances)',
+                      'structural validity of the per-instance maps (valid_structure / distinct_entries, contracts/c07.py)',
+                      'XML-RPC answers of the remote are what its RPCInterface returns'])
